@@ -23,12 +23,12 @@ KF_RESIDUE = "sym:rollback-keeps-definition-in-recycled-slot"
 # index- and size-taking procedures through their registered wrappers (harness/idx.rs): integer arguments at full width
 IDX_Q = [
     {"h": "idx_bytes_set", "spec": 2, "sym": "(bytes-set! (bytes a b) i x): a, b: u8; i, x: isize (full width)"},
-    {"h": "idx_bytes_ref", "spec": 2, "sym": "(bytes-ref (bytes a b) i): i: isize"},
     {"h": "idx_bytes_to_string", "spec": 2, "sym": "(bytes->string/utf8 (bytes a b) s e): a, b < 128; s, e: isize"},
     {"h": "idx_string_ref", "spec": 2, "sym": "(string-ref \"a\u03b2c\" i): i: isize"},
-    {"h": "idx_integer_to_char", "spec": 2, "sym": "(integer->char n): n: isize"},
 ]
 IDX_T = [
+    {"h": "idx_bytes_ref", "spec": 2, "sym": "(bytes-ref (bytes a b) i): i: isize"},
+    {"h": "idx_integer_to_char", "spec": 2, "sym": "(integer->char n): n: isize"},
     {"h": "idx_bytes_copy", "spec": 2, "sym": "(bytes-copy (bytes a b) s e): s, e: isize"},
 ]
 
